@@ -124,7 +124,7 @@ fn main() {
     let ns: Vec<usize> = if a.tier == "thorough" { vec![0, 1, 2, 3, 4, 5, 6, 7, 8, 16, 33] } else { vec![0, 1, 2, 3, 4, 5, 33] };
     for &n in &ns {
         // (op, number of forms)
-        for (op, nforms) in [(0i128, 4i128), (1, 10), (2, 4), (3, 4), (4, 1), (5, 1), (9, 1)] {
+        for (op, nforms) in [(0i128, 4i128), (1, 10), (2, 4), (3, 4), (4, 1), (5, 2), (9, 1)] {
             if mode == 1 && op >= 3 {
                 continue;
             }
